@@ -98,7 +98,7 @@ def finish(res, checker_cmd):
     stale = [k for k in kn if k not in listed]
     for k in stale:
         print('note: known finding %s is listed but was not observed on this tree' % k)
-    replay_dir = os.path.join(VERIF, 'out', 'replay')
+    replay_dir = os.path.join(os.environ.get('VERIF_EVIDENCE_DIR') or os.path.join(VERIF, 'out'), 'replay')
     code = 0
     if res.undecided:
         code = 2
@@ -150,8 +150,11 @@ def finish(res, checker_cmd):
         'wall_s': round(wall, 3),
         'violations': len(unlisted),
     }
-    os.makedirs(os.path.join(VERIF, 'evidence'), exist_ok=True)
-    with open(os.path.join(VERIF, 'evidence', res.pid + '.json'), 'w') as f:
+    # developer tools that run the checks against scratch clones (seed regression, benign self-test) redirect their
+    # evidence so that /verif/evidence only ever describes /repo itself
+    evdir = os.environ.get('VERIF_EVIDENCE_DIR') or os.path.join(VERIF, 'evidence')
+    os.makedirs(evdir, exist_ok=True)
+    with open(os.path.join(evdir, res.pid + '.json'), 'w') as f:
         json.dump(ev, f, indent=1, default=str)
     print('%s %s: %d obligations, %d discharged, %d known finding(s), %d unlisted violation(s), %d undecided, %.1fs'
           % (res.pid, res.tier, res.obligations, res.discharged, len(listed), len(unlisted),
